@@ -263,6 +263,17 @@ func (e *Engine) model(st *State, fr *Frame, x *ssa.Call, callee *ssa.Function, 
 		st.addLE(K(-1), V(r))
 		if h, ok := args[0].(StrV); ok {
 			st.addLT(V(r), strLen(h))
+			if h.Const != nil && name == "strings.IndexByte" {
+				// membership test in a constant set of bytes
+				if bv, okb := args[1].(ByteV); okb && bv.Root >= 0 && bv.Tab == nil {
+					var set Mask
+					for i := 0; i < len(*h.Const); i++ {
+						set.set(int((*h.Const)[i]))
+					}
+					b2 := bv
+					st.hits[r] = searchHit{h: h, c: -1, mask: set, org: x, member: &b2}
+				}
+			}
 			if h.Const == nil && name == "strings.IndexByte" {
 				if c, okc := constOf(args[1]); okc {
 					e.addHit(st, fr, x, r, searchHit{h: h, c: int(c), mask: maskOf(int(c) & 0xff), org: x})
@@ -391,6 +402,15 @@ func (e *Engine) applySearchAxioms(st *State) {
 			}
 		}
 		if !used {
+			continue
+		}
+		if h.member != nil {
+			switch {
+			case e.proveLE(st, K(0), V(r)):
+				e.setMask(st, *h.member, e.mask(st, *h.member).and(h.mask))
+			case e.proveLE(st, V(r), K(-1)):
+				e.setMask(st, *h.member, e.mask(st, *h.member).and(h.mask.not()))
+			}
 			continue
 		}
 		if e.proveLE(st, K(0), V(r)) {
